@@ -43,7 +43,7 @@ def gen_cases(tier, seed):
         r = random.Random(env.seed_for(s, "descriptor"))  # independent of the stream run_case derives from the same seed
         d = {"seed": s, "mode": r.choice(["plain", "plain", "registry"]), "n": r.randint(2, 14 if tier == "quick" else 30),
              "W": r.choice([1, 2, 4, 8]), "sched": r.choice(["default", "random", "random"]),
-             "observer": r.choice(["none", "rec", "console", "rec"]), "tier": tier}
+             "observer": r.choice(["none", "rec", "console", "rec", "html_failing"]), "tier": tier}
         if d["mode"] == "plain" and r.random() < 0.4:
             # calls that raise, before or after the interrupt: KeyboardInterrupt must still be what run raises, and nothing may hang
             d["faults"] = {"p": r.choice([0.15, 0.3, 0.6]), "kinds": r.choice([["exc"], ["exc", "value"], ["exc", "base"]])}
@@ -285,6 +285,14 @@ def one_interrupt(desc, build, k, position):
         import uberjob.progress as up
 
         progress = up.Progress(lambda: up.ConsoleProgressObserver(initial_update_delay=0.02, min_update_interval=0.05, max_update_interval=0.1))
+    elif desc["observer"] == "html_failing":
+        import uberjob.progress as up
+
+        def failing_output(b):
+            raise OSError(28, "No space left on device")
+
+        # a display whose output fails: its trouble must not replace the KeyboardInterrupt
+        progress = up.Progress(lambda: up.HtmlProgressObserver(failing_output, initial_update_delay=0.001, min_update_interval=0.002, max_update_interval=0.01))
     before = rec.thread_census()
     result = exc = None
     returned = False
